@@ -44,11 +44,22 @@ def _continuation():
 _continuation.__name__ = "continuation_block"
 
 
+def _fx():
+    from contracts import fixedform, C14
+    c = fixedform.analyse(PROP)
+    c.search_fn = C14.analyse_search
+    return c
+
+
+_fx.__name__ = "analyse"
+
+
 def build(tier, seed):
     set_tier(tier)
     tasks = [a_task(PROP, calls.strip_paren), a_task(PROP, calls.assoc_getitem), a_task(PROP, calls.assoc_contains), a_task(PROP, calls.assoc_remove_last), a_task(PROP, _quote_split),
              Task(f"{PROP}.S.associate_order", PROP, "FortranContainer.__init__", lambda: calls.associate_order(PROP, lambda: __import__("bounded.c08", fromlist=["x"]).search())),
              a_task(PROP, _continuation),
+             a_task(PROP, _fx),
              Task(f"{PROP}.S.include", PROP, "FortranReader.include", lambda: __import__("contracts.readerblocks", fromlist=["x"]).include_forwards_configuration(PROP, names=("fixed", "length_limit"), replay=lambda: __import__("bounded.c14", fromlist=["x"]).included_fixed_form())),
              Task(f"{PROP}.S.masking", PROP, "literal masking loops", lambda: __import__("contracts.masking", fromlist=["x"]).obligations(PROP, "ford.sourceform", lambda: __import__("bounded.c08", fromlist=["x"]).search())),
              Task(f"{PROP}.S.casefold.attribs", PROP, "attribute membership tests", lambda: __import__("contracts.casefold", fromlist=["x"]).attribute_obligations(PROP, replay=lambda: __import__("bounded.c08", fromlist=["x"]).search())),
